@@ -448,7 +448,7 @@ func runC18(c *wk.Ctx) {
 func c18History(r *rand.Rand, n int) []dop {
 	var ops []dop
 	for len(ops) < n {
-		c := r.Intn(3)
+		c := r.Intn(4)
 		switch r.Intn(10) {
 		case 0, 1, 2, 3, 4:
 			ops = append(ops, dop{K: "disc", C: c}, dop{K: "sel", C: c})
@@ -577,8 +577,8 @@ func (d *dhcpRun) restartProbe(s *packet.Session, rec *mon.Recorder, file string
 	renewed := 0
 	for _, cl := range cls {
 		id := string(cl.mac[:])
-		if cl.useID {
-			id = string(append([]byte{1}, cl.mac[:]...))
+		if cid := d.clientID(cl); cid != nil {
+			id = string(cid)
 		}
 		ip, ok := shadow[id]
 		if !ok {
@@ -598,8 +598,8 @@ func (d *dhcpRun) restartProbe(s *packet.Session, rec *mon.Recorder, file string
 		q := refdec.DHCPMsg{Op: 1, HType: 1, HLen: 6, XID: [4]byte{0xee, byte(renewed), 1, 2}, CI: ip}
 		copy(q.CHAddr[:], cl.mac[:])
 		q.Options = []refdec.DHCPOpt{{Code: 53, Data: []byte{3}}}
-		if cl.useID {
-			q.Options = append(q.Options, refdec.DHCPOpt{Code: 61, Data: append([]byte{1}, cl.mac[:]...)})
+		if cid := d.clientID(cl); cid != nil {
+			q.Options = append(q.Options, refdec.DHCPOpt{Code: 61, Data: cid})
 		}
 		reps := send(cl, q, ip)
 		if len(reps) != 1 || reps[0].Type() != refdec.DHCPAck || reps[0].YI != ip {
@@ -615,18 +615,50 @@ func (d *dhcpRun) restartProbe(s *packet.Session, rec *mon.Recorder, file string
 		}
 		renewed++
 	}
-	// a new client must not be offered a bound address
-	nc := &dclient{mac: refdec.MAC{0x02, 0xc9, 0, 0, 0, 9}}
-	q := refdec.DHCPMsg{Op: 1, HType: 1, HLen: 6, XID: [4]byte{0xef, 1, 2, 3}}
-	copy(q.CHAddr[:], nc.mac[:])
-	q.Options = []refdec.DHCPOpt{{Code: 53, Data: []byte{1}}}
-	for _, rp := range send(nc, q, ip4zero) {
-		for cl, ip := range shadow {
-			if rp.Type() == refdec.DHCPOffer && rp.YI == ip {
-				c.Viol("lease:restart:bound-address-offered", fmt.Sprintf("after the restart %v (bound to client %x) is offered to a new client", ip, cl), data)
-				return
+	// a new client must not be offered a bound address: a new network card that asks for nothing in particular, one that asks
+	// for each bound address, and a second client identifier behind the network card of the bound client asking for it
+	type probe struct {
+		mac  refdec.MAC
+		id   []byte
+		want netip.Addr
+		who  string
+	}
+	probes := []probe{{mac: refdec.MAC{0x02, 0xc9, 0, 0, 0, 9}, who: "a new client"}}
+	var holders []string
+	for cl := range shadow {
+		holders = append(holders, cl)
+	}
+	sort.Strings(holders)
+	for _, cl := range holders {
+		probes = append(probes, probe{mac: refdec.MAC{0x02, 0xc9, 0, 0, 0, 10}, want: shadow[cl], who: "a new client asking for it"})
+		for _, x := range cls {
+			cid := d.clientID(x)
+			if (cid != nil && string(cid) == cl) || (cid == nil && string(x.mac[:]) == cl) {
+				probes = append(probes, probe{mac: x.mac, id: []byte{0, 'o', 't', 'h', 'e', 'r'}, want: shadow[cl], who: "another client identifier on the bound client's network card asking for it"})
+				break
 			}
 		}
+	}
+	for k, pb := range probes {
+		nc := &dclient{mac: pb.mac, id: pb.id}
+		q := refdec.DHCPMsg{Op: 1, HType: 1, HLen: 6, XID: [4]byte{0xef, byte(k), 2, 3}}
+		copy(q.CHAddr[:], nc.mac[:])
+		q.Options = []refdec.DHCPOpt{{Code: 53, Data: []byte{1}}}
+		if pb.id != nil {
+			q.Options = append(q.Options, refdec.DHCPOpt{Code: 61, Data: pb.id})
+		}
+		if pb.want.IsValid() {
+			q.Options = append(q.Options, refdec.DHCPOpt{Code: 50, Data: ip4b(pb.want)})
+		}
+		for _, rp := range send(nc, q, ip4zero) {
+			for cl, ip := range shadow {
+				if rp.Type() == refdec.DHCPOffer && rp.YI == ip {
+					c.Viol("lease:restart:bound-address-offered", fmt.Sprintf("after the restart %v (bound to client %x) is offered to %s", ip, cl, pb.who), data)
+					return
+				}
+			}
+		}
+		c.Obs("restart_offer_probes", 1)
 	}
 	c.Obs("restarts_checked", 1)
 	c.Obs("renewals_after_restart", int64(renewed))
